@@ -29,7 +29,7 @@ for d in sorted(glob.glob(os.path.join(V, 'seeded', 'seed-*'))):
             props.add(prop)
     finally:
         subprocess.run(['git', '-C', '/repo', 'worktree', 'remove', '--force', WT], capture_output=True)
-    meta['detection_latest'] = res
+    meta[os.environ.get('SEEDRUN_KEY', 'detection_latest')] = res
     json.dump(meta, open(os.path.join(d, 'meta.json'), 'w'), indent=1)
     summary.append((sid, res.get('exit'), res.get('violations'), res.get('with_input')))
     print(sid, res.get('exit'), res.get('violations'), res.get('with_input'), flush=True)
